@@ -330,6 +330,15 @@ func (c07Engine) Gen(r *core.Rand, tier string, i int) any {
 		sc.Mode, sc.Where = "getline-two", ""
 		data := c07GenInput(r, sc.RS, 16)
 		sc.Srcs = append(sc.Srcs[:1:1], c07Src{Data: data, D: genDelivery(r, len(data))})
+		if sc.Enum == "" && r.Chance(1, 3) {
+			// both streams hold far more than one small read: each scanner keeps unread records
+			// buffered while the other stream is being read
+			sep := c07SepInstance(sc.RS)
+			for k, unit := range []string{"ab-", "cdcd"} {
+				u := append([]byte(unit), sep...)
+				sc.Srcs[k] = c07Src{PadUnit: u, PadCount: r.Range(5000, 70000) / len(u), Data: c07GenInput(r, sc.RS, 8)}
+			}
+		}
 	default:
 		sc.Mode, sc.Where = "getline-cmd", ""
 		if sc.Enum == "allchunk" && len(sc.Srcs[0].Data) > 5 {
@@ -340,6 +349,18 @@ func (c07Engine) Gen(r *core.Rand, tier string, i int) any {
 		}
 	}
 	return sc
+}
+
+// c07SepInstance is a literal byte string that RS matches as one separator.
+func c07SepInstance(rs []byte) []byte {
+	if len(rs) == 0 {
+		return []byte("\n\n")
+	}
+	if len(rs) > 1 && utf8.RuneCountInString(string(rs)) > 1 {
+		alpha := c07Alphabet(rs)
+		return []byte(alpha[len(alpha)-1])
+	}
+	return rs
 }
 
 // c07GenBig plants separators and partial matches around the scanner's buffer edges.
